@@ -427,6 +427,18 @@ func main() {
 			if !orb.Equal(a, a2) || !orb.Equal(a2, a) {
 				c.Failf("equal", "form %d: orb.Equal(%v, its copy) is false", fi, a)
 			}
+			// the same coordinates with the other sign of zero agree under ==, hence the geometries are equal
+			neg := append([]orb.Point(nil), base...)
+			for i := range neg {
+				for k := 0; k < 2; k++ {
+					if neg[i][k] == 0 {
+						neg[i][k] = math.Copysign(0, -1)
+					}
+				}
+			}
+			if z := f(neg); !orb.Equal(a, z) || !orb.Equal(z, a) {
+				c.Failf("equal", "form %d: orb.Equal(%v, the same with negative zeros) = %v / %v", fi, a, orb.Equal(a, z), orb.Equal(z, a))
+			}
 		}
 		c.NonTrivial()
 	})
